@@ -44,6 +44,38 @@ theorem aggregateT_errFwd (S : Sem χ ρ ν ε κ α) (L : LimEnv ε) (site : Si
   simp only [aggregateT]
   cases L.time (.inner site) st.n <;> simp
 
+theorem loopT_errFwd (L : LimEnv ε) (timeSite : Site) (stage : String) :
+    ErrFwd (loopT (ρ := ρ) L timeSite stage) := by
+  intro st e _
+  simp only [loopT]
+  cases L.time timeSite st.n <;> simp
+
+omit [DecidableEq κ] in
+theorem dropErrT_false {σ : Type} (t : Trans σ ε ρ) : dropErrT false t = t := by
+  cases t with
+  | mk step done flush =>
+    simp only [dropErrT, Trans.mk.injEq, and_true]
+    funext st x
+    cases x <;> rfl
+
+omit [DecidableEq κ] in
+/-- over an error-free input the missing arm makes no difference -/
+theorem dropErrT_run_ok {σ : Type} (b : Bool) (t : Trans σ ε ρ) (rows : List ρ) :
+    ∀ st, (dropErrT b t).run st (rows.map .ok) = t.run st (rows.map .ok) := by
+  induction rows with
+  | nil => intro st; rfl
+  | cons r rs ih =>
+    intro st
+    simp only [List.map_cons, Trans.run_cons]
+    show (if t.done st then [] else (t.step st (.ok r)).2 ++ (dropErrT b t).run (t.step st (.ok r)).1 (rs.map .ok)) = _
+    rw [ih]
+
+omit [DecidableEq κ] in
+theorem dropErrs_false (s : Stream ε ρ) : dropErrs false s = s := rfl
+
+theorem Quirks.dropsErr_of_nil (Q : Quirks) (h : Q.drops = []) (k : OpKind) : Q.dropsErr k = false := by
+  simp [Quirks.dropsErr, h]
+
 /-! ### the guard -/
 
 theorem guard_pulled_ok (L : LimEnv ε) (site : Site) (s : Stream ε ρ) (d : Nat)
@@ -303,7 +335,8 @@ variable {χ ρ ν ε κ α : Type} [DecidableEq κ]
 /-- the operators of `Q` are the repaired ones as far as `Err` items are concerned -/
 def Quirks.forwardsErr (Q : Quirks) : Prop :=
   Q.distinctDropsErr = false ∧ Q.unionDropsErr = false ∧ Q.skipDropsErr = false ∧
-  Q.orderByKeepsErr = false ∧ Q.existsSwallowsErr = false ∧ Q.guardDropsFailureAtEnd = false
+  Q.orderByKeepsErr = false ∧ Q.existsSwallowsErr = false ∧ Q.guardDropsFailureAtEnd = false ∧
+  Q.drops = []
 
 instance (Q : Quirks) : Decidable Q.forwardsErr := by unfold Quirks.forwardsErr; infer_instance
 
@@ -358,16 +391,113 @@ theorem trace_ok (S : Sem χ ρ ν ε κ α) (Q : Quirks) (hq : Q.forwardsErr) (
     (p : Plan χ ρ ε α) : ∀ (site : Site) (env : ρ) (d : Nat),
     allOk ((runL S Q L site env p).take d) = true →
     ∀ x ∈ trace false S Q L site env p d, Item.isOk x.item = true := by
-  obtain ⟨hq1, hq2, hq3, hq4, hq5, hq6⟩ := hq
+  obtain ⟨hq1, hq2, hq3, hq4, hq5, hq6, hq7⟩ := hq
+  have hd := Quirks.dropsErr_of_nil Q hq7
   induction p with
-  | source items => intro site env d h; exact leafTrace_ok L site items d h
+  | scan rows => intro site env d h; exact leafTrace_ok L site _ d h
+  | fail e => intro site env d h; exact leafTrace_ok L site _ d h
   | arg => intro site env d h; exact leafTrace_ok L site _ d h
-  | filter pred inp ih =>
-    intro site env d h
-    exact unaryTrace_ok L site _ (mapT_errFwd _) _ _ _ d (ih _ _) h
-  | project projs inp ih =>
+  | indexSeek key value fb ih =>
     intro site env d h
     simp only [runL, trace, hq6] at h ⊢
+    have h1 := guard_pulled_ok L site _ d h
+    -- a failure parked by the seek value is the first item of the node
+    have hpark : ∀ e, S.park L.coll value env S.empty = some e →
+        guardNeed L site (parkHead (S.park L.coll value env S.empty) false
+          (seekBody S L env key value (runL S Q L (.left site) env fb))) d = 0 := by
+      intro e hp
+      rw [hp] at h1 ⊢
+      generalize guardNeed L site _ d = d1 at h1
+      cases d1 with
+      | zero => rfl
+      | succ d' =>
+        cases hb : seekBody S L env key value (runL S Q L (.left site) env fb) <;>
+          simp [parkHead, hb, List.take_succ_cons] at h1
+    intro x hx
+    rcases List.mem_append.1 hx with hx | hx
+    · rcases List.mem_append.1 hx with hx | hx
+      · exact (handed_ok_iff true _).2 h1 x hx
+      · split at hx
+        · simp at hx
+        · rename_i hne
+          cases hp : S.park L.coll value env S.empty with
+          | none => rw [hp] at hx; simp at hx
+          | some e => exact absurd (hpark e hp) hne
+    · cases hev : S.eval L.coll value env S.empty with
+      | error e => rw [hev] at hx; simp at hx
+      | ok v =>
+        rw [hev] at hx
+        simp only at hx
+        cases hl : S.lookup key v with
+        | some rows => rw [hl] at hx; simp at hx
+        | none =>
+          rw [hl] at hx
+          simp only at hx
+          have hc : allOk ((runL S Q L (.left site) env fb).take
+              (guardNeed L site (parkHead (S.park L.coll value env S.empty) false
+                (seekBody S L env key value (runL S Q L (.left site) env fb))) d)) = true := by
+            cases hp : S.park L.coll value env S.empty with
+            | some e => have h0 := hpark e hp; rw [hp] at h0; rw [h0]; rfl
+            | none =>
+              rw [hp] at h1
+              simpa [parkHead, seekBody, hev, hl, hp] using h1
+          rcases List.mem_append.1 hx with hx | hx
+          · exact (handed_ok_iff false _).2 hc x hx
+          · exact ih _ _ _ hc x hx
+  | filter pred inp ih =>
+    intro site env d h
+    simp only [runL, trace, hd, dropErrT_false] at h ⊢
+    exact unaryTrace_ok L site _ (mapT_errFwd _) _ _ _ d (ih _ _) h
+  | procedureCall name args inp ih =>
+    intro site env d h
+    simp only [runL, trace, hq6, hd, dropErrT_false] at h ⊢
+    exact parkTrace_ok L site _ (flatMapT_errFwd _) _ _
+      (fun s st d' hd' h' => (park_ok_of_never_done _ (flatMapT_errFwd _) (fun _ => rfl) _ _ s st none d' hd' h').2) _ _ _ d (ih _ _) h
+  | fixup nulls outer filtered iho ihf =>
+    intro site env d h
+    simp only [runL, trace, hd, dropErrT_false, eagerPre, Bool.false_eq_true, if_false, Nat.max_zero] at h ⊢
+    have h1 := guard_pulled_ok L site _ d h
+    split
+    · simp
+    · rename_i hne
+      obtain ⟨d', hd'⟩ := Nat.exists_eq_succ_of_ne_zero hne
+      -- the node's first item is `Ok`: none of the three loops failed
+      have ho : allOk ((loopT (ρ := ρ) L (.inner site) "OptionalWhereFixup.outer").run ⟨0, 0, false⟩
+          (runL S Q L (.left site) env outer)) = true := by
+        cases hc : collect ((loopT (ρ := ρ) L (.inner site) "OptionalWhereFixup.outer").run ⟨0, 0, false⟩
+            (runL S Q L (.left site) env outer)) with
+        | ok rows => exact (collect_ok_iff _).1 ⟨rows, hc⟩
+        | error e =>
+          rw [hd'] at h1
+          simp [fixupBody, hd, dropErrT_false, hc, List.take_succ_cons] at h1
+      obtain ⟨orows, hco⟩ := (collect_ok_iff _).2 ho
+      have hf : allOk ((loopT (ρ := ρ) L (.inner (.inner site)) "OptionalWhereFixup.filtered").run ⟨0, 0, false⟩
+          (runL S Q L (.right site) env filtered)) = true := by
+        cases hc : collect ((loopT (ρ := ρ) L (.inner (.inner site)) "OptionalWhereFixup.filtered").run ⟨0, 0, false⟩
+            (runL S Q L (.right site) env filtered)) with
+        | ok rows => exact (collect_ok_iff _).1 ⟨rows, hc⟩
+        | error e =>
+          rw [hd'] at h1
+          simp [fixupBody, hd, dropErrT_false, hco, hc, List.take_succ_cons] at h1
+      have hpo := (loopT (ρ := ρ) L (.inner site) "OptionalWhereFixup.outer").pulled_ok (loopT_errFwd _ _ _) ⟨0, 0, false⟩
+        (runL S Q L (.left site) env outer) (driverDemand ((loopT (ρ := ρ) L (.inner site) "OptionalWhereFixup.outer").run ⟨0, 0, false⟩
+          (runL S Q L (.left site) env outer))) (allOk_take _ _ ho)
+      have hpf := (loopT (ρ := ρ) L (.inner (.inner site)) "OptionalWhereFixup.filtered").pulled_ok (loopT_errFwd _ _ _) ⟨0, 0, false⟩
+        (runL S Q L (.right site) env filtered) (driverDemand ((loopT (ρ := ρ) L (.inner (.inner site)) "OptionalWhereFixup.filtered").run ⟨0, 0, false⟩
+          (runL S Q L (.right site) env filtered))) (allOk_take _ _ hf)
+      rw [ho]
+      simp only [if_true]
+      intro x hx
+      simp only [List.mem_append] at hx
+      rcases hx with ((hx | hx) | hx) | hx | hx
+      · exact (handed_ok_iff true _).2 h1 x hx
+      · exact (handed_ok_iff false _).2 hpo x hx
+      · exact iho _ _ _ hpo x hx
+      · exact (handed_ok_iff false _).2 hpf x hx
+      · exact ihf _ _ _ hpf x hx
+  | project projs inp ih =>
+    intro site env d h
+    simp only [runL, trace, hq6, hd, dropErrT_false] at h ⊢
     exact parkTrace_ok L site _ (mapT_errFwd _) _ _
       (fun s st d' hd' h' => (park_ok_of_never_done _ (mapT_errFwd _) (fun _ => rfl) _ _ s st none d' hd' h').2) _ _ _ d (ih _ _) h
   | distinct inp ih =>
@@ -376,11 +506,12 @@ theorem trace_ok (S : Sem χ ρ ν ε κ α) (Q : Quirks) (hq : Q.forwardsErr) (
     exact unaryTrace_ok L site _ (distinctT_errFwd S) _ _ _ d (ih _ _) h
   | unwind e alias inp ih =>
     intro site env d h
-    simp only [runL, trace, hq6] at h ⊢
+    simp only [runL, trace, hq6, hd, dropErrT_false] at h ⊢
     exact parkTrace_ok L site _ (flatMapT_errFwd _) _ _
       (fun s st d' hd' h' => (park_ok_of_never_done _ (flatMapT_errFwd _) (fun _ => rfl) _ _ s st none d' hd' h').2) _ _ _ d (ih _ _) h
-  | expand f inp ih =>
+  | expand kind g inp ih =>
     intro site env d h
+    simp only [runL, trace, hd, dropErrT_false] at h ⊢
     exact unaryTrace_ok L site _ (flatMapT_errFwd _) _ _ _ d (ih _ _) h
   | skip n inp ih =>
     intro site env d h
@@ -401,7 +532,7 @@ theorem trace_ok (S : Sem χ ρ ν ε κ α) (Q : Quirks) (hq : Q.forwardsErr) (
       (fun s st d' _ h' => park_ok_of_flush_only _ _ s st d' h') _ _ _ d (ih _ _) h
   | aggregate groupBy aggs inp ih =>
     intro site env d h
-    simp only [runL, trace, hq6] at h ⊢
+    simp only [runL, trace, hq6, hd, dropErrT_false] at h ⊢
     exact parkTrace_ok L site _ (aggregateT_errFwd S L site env groupBy aggs) _ _
       (fun s st d' _ h' => park_ok_of_flush_only _ _ s st d' h') _ _ _ d (ih _ _) h
   | union all l r ihl ihr =>
@@ -435,7 +566,7 @@ theorem trace_ok (S : Sem χ ρ ν ε κ α) (Q : Quirks) (hq : Q.forwardsErr) (
       · exact ihr _ _ _ h2'.2 x hx
   | filterExists sub inp ihs ihi =>
     intro site env d h
-    simp only [runL, trace] at h ⊢
+    simp only [runL, trace, hd, dropErrT_false] at h ⊢
     intro x hx
     rcases List.mem_append.1 hx with hx | hx
     · exact unaryTrace_ok L site _ (flatMapT_errFwd _) _ _ _ d (ihi _ _) h x hx
@@ -456,7 +587,7 @@ theorem trace_ok (S : Sem χ ρ ν ε κ α) (Q : Quirks) (hq : Q.forwardsErr) (
         | error e => simp [existsRow, hq5, List.take_succ_cons] at hbok
   | cartesian l r ihl ihr =>
     intro site env d h
-    simp only [runL, trace] at h ⊢
+    simp only [runL, trace, hd, dropErrT_false, dropErrs_false] at h ⊢
     intro x hx
     rcases List.mem_append.1 hx with hx | hx
     · exact unaryTrace_ok L site _ (flatMapT_errFwd _) _ _ _ d (ihl _ _) h x hx
@@ -469,7 +600,7 @@ theorem trace_ok (S : Sem χ ρ ν ε κ α) (Q : Quirks) (hq : Q.forwardsErr) (
       exact hbok
   | apply inp sub ihi ihs =>
     intro site env d h
-    simp only [runL, trace] at h ⊢
+    simp only [runL, trace, hd, dropErrT_false, dropErrs_false] at h ⊢
     cases ht : L.time (.inner site) 0 with
     | some e => rw [ht] at h; exact leafTrace_ok L site _ d h
     | none =>
